@@ -557,6 +557,7 @@ static void init_form_case(Rng &r) {
 	};
 	{ frg::optional<InitProbe> f; std::optional<InitProbe> s; f.emplace(x, y); s.emplace(x, y); diff("optional::emplace", *f, *s); f.emplace(x); s.emplace(x); diff("optional::emplace(one argument)", *f, *s); }
 	{ frg::variant<int, InitProbe> f; std::variant<std::monostate, int, InitProbe> s; f.emplace<InitProbe>(x, y); s.emplace<2>(x, y); diff("variant::emplace<T>", f.get<InitProbe>(), std::get<2>(s)); }
+	{ frg::manual_box<InitProbe> f; std::optional<InitProbe> s; f.initialize(x, y); s.emplace(x, y); diff("manual_box::initialize", *f, *s); f.destruct(); f.initialize(x); s.emplace(x); diff("manual_box::initialize(one argument)", *f, *s); f.destruct(); }
 	count("init_form_cases");
 }
 
